@@ -49,7 +49,7 @@ POOL: dict[str, t.Union[str, bytes]] = {
     's_sp': '  padded  ', 's_yes': 'yes', 's_null': 'null', 's_tilde': '~', 's_1e3': '1e3',
     's_colon': ': #', 's_t': 't', 's_kind': 'kind', 's_x': 'x', 's_y': 'y', 's_z': 'z',
     's_w': 'w', 's_v': 'v', 's_W': 'W', 's_X': 'X', 's_ab_cd': 'ab_cd', 's_abCd': 'abCd', 's_AbCd': 'AbCd', 's_ab_cd_k': 'ab-cd', 's_AB_CD': 'AB_CD', 's_nfrac': '-3/4', 's_abc': 'abc', 's_v1': 'v1', 's_v2': 'v2', 's_v3': 'v3',
-    's_start': 'start', 's_end': 'end', 's_n': 'n', 's_step': 'step',
+    's_start': 'start', 's_end': 'end', 's_n': 'n', 's_step': 'step', 's_inner': 'inner',
     'b_x': b'xyz', 'b_empty': b'', 'b_re': b'a+', 'b_badre': b'(',
 }
 _by_text: dict[t.Union[str, bytes], str] = {}
